@@ -39,6 +39,9 @@ pub struct Scn {
     /// stdout of the key commands is a (pseudo-)terminal instead of a pipe
     #[serde(default)]
     pub tty_stdout: bool,
+    /// about half of the invocations type their passwords at the prompt on a controlling terminal
+    #[serde(default)]
+    pub typed_pass: bool,
 }
 
 pub struct B4;
@@ -123,7 +126,9 @@ impl Family for B4 {
         }
         // the newest string is put to use in a keyring at the end - always when its password is the empty one
         let use_at_end = rng.chance(1, 3) || history.last().map(|p| p.is_empty()).unwrap_or(false);
-        Scn { start_generated: rng.chance(1, 2), first_password, steps, seed: rng.next_u64(), use_at_end, tty_stdout: rng.chance(1, 4) }
+        let mut scn = Scn { start_generated: rng.chance(1, 2), first_password, steps, seed: rng.next_u64(), use_at_end, tty_stdout: rng.chance(1, 4), typed_pass: false };
+        scn.typed_pass = (scn.seed >> 5) & 3 == 1; // derived, not drawn
+        scn
     }
     fn execute(&self, s: &Scn) -> RunOut {
         let mut out = RunOut::default();
@@ -140,6 +145,8 @@ impl Family for B4 {
                 inv.stdout = Stdout::Pty;
             }
             inv.entropy_seed = Some(s.seed ^ inv_n.wrapping_mul(0x9E3779B97F4A7C15));
+            let mut t = s.seed ^ inv_n.wrapping_mul(0x7479_7065);
+            inv.pass_via_tty = s.typed_pass && crate::rng::splitmix(&mut t) % 2 == 0;
             let fin = run(&sb, &inv);
             *th = th.rotate_left(13) ^ fin.digest();
             all.extend_from_slice(&fin.stdout);
@@ -371,6 +378,11 @@ impl Family for B4 {
         if s.use_at_end {
             let mut t = s.clone();
             t.use_at_end = false;
+            c.push(t);
+        }
+        if s.typed_pass {
+            let mut t = s.clone();
+            t.typed_pass = false;
             c.push(t);
         }
         c
